@@ -333,6 +333,33 @@ pub fn c12(ctx: &Ctx) -> PropResult {
         }
         let model_files: Vec<String> = files.iter().map(|(p, c)| format!("h{}=f{}", hex(p.as_bytes()), hex(c.as_bytes()))).collect();
         let mut d = Driver::spawn(&ctx.driver);
+        // the working directory stays what it was, wherever the program file lies and whatever it imports: a program in
+        // a sub-directory that uses cwd-relative FS paths (before and after importing a module from another directory)
+        {
+            std::fs::create_dir_all(dir.join("scripts")).unwrap();
+            std::fs::write(dir.join("data.txt"), "hello").unwrap();
+            let mut mf = model_files.clone();
+            mf.push(format!("h{}=f{}", hex(b"data.txt"), hex(b"hello")));
+            for src in ["IMPORT MOD \"FS\"\nDISPLAY(PATH_EXISTS(\"data.txt\"))\nDISPLAY(FILE_READ(\"data.txt\"))\nDISPLAY(PATH_EXISTS(\"scripts\"))\n", "IMPORT MOD \"FS\"\nIMPORT MOD \"../sub/m12.ap\"\nDISPLAY(FILE_READ(\"data.txt\"))\nDISPLAY(PATH_IS_FILE(\"sib12.ap\"))\n"] {
+                std::fs::write(dir.join("scripts/main.ap"), src).unwrap();
+                let mut mf2 = mf.clone();
+                mf2.push(format!("h{}=f{}", hex(b"scripts/main.ap"), hex(src.as_bytes())));
+                let r = run_binary(&["scripts/main.ap"], None, &dir);
+                let reply = d.ask(&format!("CLI file none 0 h{} h h{} {}", hex(src.as_bytes()), hex(b"scripts/main.ap"), mf2.join(",")));
+                let f: Vec<&str> = reply.split(' ').collect();
+                let case = Case::new(Kind::Run, src.to_string()).aux("mode=file, program in scripts/ started from its parent directory".into());
+                let impl_rec = format!("exit={:?} stdout={} stderr_nonempty={}", r.code, hex(&r.stdout), !r.stderr.is_empty());
+                let mut failure = None;
+                if f.len() < 3 {
+                    failure = fail("model-disagreement", case, impl_rec, reply.clone(), "model did not answer".into());
+                } else if (r.code == Some(0)) != (f[0] == "0") || String::from_utf8_lossy(&r.stdout) != unhex_str(f[1].trim_start_matches('h')) {
+                    failure = fail("model-disagreement", case, impl_rec, reply.clone(), "exit status or standard output differ from the model (cwd-relative paths from a program in a sub-directory)".into());
+                }
+                verdicts.push(Verdict { tags: vec!["class:module".into(), "cwd-relative".into()], sample: src.to_string(), nontrivial: true, failure });
+            }
+            let _ = std::fs::remove_file(dir.join("data.txt"));
+            let _ = std::fs::remove_dir_all(dir.join("scripts"));
+        }
         for src in [
             "IMPORT MOD \"mod12.ap\"\nDISPLAY(twelve())\n",
             "IMPORT \"twelve\" FROM MOD \"./mod12.ap\"\nDISPLAY(twelve() + 1)\n",
@@ -388,7 +415,7 @@ pub fn c12(ctx: &Ctx) -> PropResult {
     let stats = collect(verdicts);
     PropResult {
         stats,
-        rule: format!("{} programs (succeeding, lexical / syntax / runtime errors, robot-wall termination, reading INPUT, imports with a bracketed list, random programs) x {{file, -e, --eval-stdin}} x six --debug modes x --check x stdin empty / two lines; the real binary built from /repo without the hook feature is spawned twice per configuration; compared with the model's decision: exit status zero / non-zero, standard-output bytes, diagnostics present on standard error; implementation-only: --check prints nothing, two runs agree; the empty, blank, newline-only, comment-only and `;` programs in every mode, -e included; --check together with every --debug mode (nothing on standard output, nothing executed: a program that creates a file); EXPORT in programs nobody imports", all_programs.len()),
+        rule: format!("{} programs (succeeding, lexical / syntax / runtime errors, robot-wall termination, reading INPUT, imports with a bracketed list, random programs) x {{file, -e, --eval-stdin}} x six --debug modes x --check x stdin empty / two lines; the real binary built from /repo without the hook feature is spawned twice per configuration; compared with the model's decision: exit status zero / non-zero, standard-output bytes, diagnostics present on standard error; implementation-only: --check prints nothing, two runs agree; the empty, blank, newline-only, comment-only and `;` programs in every mode, -e included; --check together with every --debug mode (nothing on standard output, nothing executed: a program that creates a file); EXPORT in programs nobody imports; a program in a sub-directory using cwd-relative FS paths, before and after importing a module from elsewhere", all_programs.len()),
         exhaustive: false,
         notes: vec![format!("binary: {BINARY}")],
     }
@@ -506,6 +533,16 @@ pub fn c19(ctx: &Ctx) -> PropResult {
                 }
             }
         }
+        // a directory that holds only empty directories is not empty
+        for rm in ["DIRECTORY_REMOVE(\"d\")", "DIRECTORY_REMOVE(\"d/e\")", "FILE_REMOVE(\"d\")", "DIRECTORY_REMOVE(\"d/\")", "DIRECTORY_REMOVE(\"./d\")"] {
+            for mk in ["DIRECTORY_CREATE_ALL(\"d/e\")", "DIRECTORY_CREATE_ALL(\"d/e/g\")", "DIRECTORY_CREATE_ALL(\"d/e\"))\nDISPLAY(DIRECTORY_CREATE(\"d/h\")"] {
+                histories.push(format!("{pre}DISPLAY({mk})\nDISPLAY({rm})\nDISPLAY(PATH_IS_DIRECTORY(\"d\"))\nDISPLAY(PATH_IS_DIRECTORY(\"d/e\"))\nDISPLAY({rm})\n{}", stmt("DIRECTORY_READ", "d", "")));
+            }
+        }
+        // an empty file exists: creating it again fails like creating any other existing file
+        for empty in ["DISPLAY(FILE_CREATE(\"f1\"))\n", "DISPLAY(FILE_CREATE(\"f1\"))\nDISPLAY(FILE_OVERWRITE(\"f1\", \"x\"))\nDISPLAY(FILE_OVERWRITE(\"f1\", \"\"))\n"] {
+            histories.push(format!("{pre}{empty}DISPLAY(FILE_CREATE(\"f1\"))\nDISPLAY(FILE_CREATE(\"./f1\"))\nDISPLAY([FILE_READ(\"f1\")])\nDISPLAY(DIRECTORY_CREATE(\"f1\"))\nDISPLAY(DIRECTORY_CREATE_ALL(\"f1\"))\n"));
+        }
         // a directory made, its ancestor removed (under any spelling), the directory made again and used
         for make in ["DIRECTORY_CREATE_ALL(\"d/e\")", "DIRECTORY_CREATE_ALL(\"d/e/g\")", "DIRECTORY_CREATE_ALL(\"d\")", "DIRECTORY_CREATE(\"d\")"] {
             for unmake in ["DIRECTORY_REMOVE_ALL(\"d\")", "DIRECTORY_REMOVE_ALL(\"./d\")", "DIRECTORY_REMOVE_ALL(\"d/\")", "DIRECTORY_REMOVE_ALL(\"d/e\")", "DIRECTORY_REMOVE(\"d/e\")", "DIRECTORY_REMOVE(\"d\")", "DIRECTORY_REMOVE_ALL(\"d/e/..\")", "FILE_REMOVE(\"d\")"] {
@@ -583,7 +620,7 @@ pub fn c19(ctx: &Ctx) -> PropResult {
     let stats = collect(verdicts);
     PropResult {
         stats,
-        rule: "histories of the 13 FS procedures over path names {f1, f2, d, d/f, d/e, d/e/g, \"\", ., d/, ./f1, nope/x, f1/x} with contents of every value kind, each in a fresh temporary directory, run by the real binary: all histories of length 2 over 6 paths with and without a creation prefix (quick: a sample), random histories of length 3-30, every FS procedure on every argument exemplar; after each history the standard output (every result; DIRECTORY_READ as a multiset) and a full snapshot of the directory tree with file contents are compared with the file-system model; read / change keeping the length (4 ways, 2 spellings) / read again; a directory made, its ancestor removed (8 spellings), made again and used; texts of 32 KiB, 64 KiB + and 128 KiB + written, read back and appended to".into(),
+        rule: "histories of the 13 FS procedures over path names {f1, f2, d, d/f, d/e, d/e/g, \"\", ., d/, ./f1, nope/x, f1/x} with contents of every value kind, each in a fresh temporary directory, run by the real binary: all histories of length 2 over 6 paths with and without a creation prefix (quick: a sample), random histories of length 3-30, every FS procedure on every argument exemplar; after each history the standard output (every result; DIRECTORY_READ as a multiset) and a full snapshot of the directory tree with file contents are compared with the file-system model; read / change keeping the length (4 ways, 2 spellings) / read again; a directory made, its ancestor removed (8 spellings), made again and used; texts of 32 KiB, 64 KiB + and 128 KiB + written, read back and appended to; directories holding only empty directories; an existing empty file".into(),
         exhaustive: !ctx.quick(),
         notes: vec![],
     }
@@ -628,6 +665,20 @@ pub fn c13(ctx: &Ctx) -> PropResult {
             forms.push((format!("PROCEDURE local_fn() {{\n}}\nIMPORT [\"{}\", \"local_fn\"] FROM MOD \"{m}\"\n", names[0].0), vec![], "unknown-name"));
             forms.push((format!("IMPORT [\"{}\", \"LENGTH\"] FROM MOD \"{m}\"\n", names[0].0), vec![], "unknown-name"));
         }
+        // a procedure of the program (or of an earlier import) named like a procedure of the module: after the import
+        // the module's procedure is the one that runs
+        if let Some((n0, a0)) = names.first() {
+            let params: Vec<String> = (0..*a0).map(|i| format!("p{i}")).collect();
+            let user = format!("PROCEDURE {n0}({}) {{\nRETURN \"user version\"\n}}\n", params.join(", "));
+            let args: Vec<String> = (0..*a0).map(|i| crate::gen::plausible_arg(m, n0, i).to_string()).collect();
+            for imp in [format!("IMPORT MOD \"{m}\"\n"), format!("IMPORT \"{n0}\" FROM MOD \"{m}\"\n")] {
+                if n0 == "DISPLAY" || n0 == "INPUT" || n0 == "TIME" || m == "FS" || m == "ROBOT" {
+                    continue;
+                }
+                let src = format!("IMPORT MOD \"MAP\"\nlst <- [1, 2]\nmp <- MAP()\n{user}before <- {n0}({})\n{imp}after <- {n0}({})\nDISPLAY(before == \"user version\")\nDISPLAY(after == \"user version\")\n", args.join(", "), args.join(", "));
+                cases.push(Case::new(Kind::Run, src).tag("library:shadowed-then-imported").aux("run|".into()));
+            }
+        }
         // several imports of the same module one after the other: exactly the union of what they name is callable
         for (imp, visible) in crate::props6::import_sequences(&names, m) {
             forms.push((imp, visible, "sequence"));
@@ -671,6 +722,13 @@ pub fn c13(ctx: &Ctx) -> PropResult {
         let mut it = case.aux.split('|');
         let expected = it.next().unwrap_or("");
         let name = it.next().unwrap_or("");
+        if expected == "run" {
+            return match &r.end {
+                End::Panic(m) => Err(format!("implementation panicked: {m}")),
+                End::Ok if !r.output.ends_with("TRUE\nFALSE\n") => Err(format!("after the import the procedure declared by the program still runs instead of the module's (output {:?})", r.output)),
+                _ => Ok(true),
+            };
+        }
         match &r.end {
             End::Panic(m) => Err(format!("implementation panicked: {m}")),
             End::Rt(o, l, _) => {
@@ -785,6 +843,9 @@ pub fn c13(ctx: &Ctx) -> PropResult {
     // can call (nothing of its importer)
     for (lib, main) in crate::props6::module_duplicate_names() {
         trees.push((main, vec![("lib.ap".to_string(), lib)], "duplicate-names".to_string()));
+    }
+    for (lib, main) in crate::props6::nested_export_family() {
+        trees.push((main, vec![("lib.ap".to_string(), lib)], "nested-export".to_string()));
     }
     for (lib, main) in crate::props6::rebind_adjacent_calls() {
         trees.push((main, vec![("lib.ap".to_string(), lib)], "rebind-adjacent-calls".to_string()));
@@ -968,7 +1029,7 @@ pub fn c13(ctx: &Ctx) -> PropResult {
     stats.merge(collect(raw_verdicts));
     PropResult {
         stats,
-        rule: "library imports: for every module of the live registry the forms IMPORT MOD, IMPORT \"f\" FROM MOD (several names), IMPORT [f, g] FROM MOD, an unknown name, an unknown module; after each, every procedure name of the whole registry is probed without running it (a call with one argument too many: the label is the argument list iff the name is defined, the name iff it is not) and the importer's variable is displayed; user modules: generated files in the importer's directory or sub-directories with top-level output, a module variable, two exported procedures (one calling the other), a private procedure, optionally a runtime / syntax / lexical error or a nested import relative to the module's own directory; imported whole, by one name, by a list, by a private name, twice; probes for exported / private / module-variable / nested names and the importer's variables; in-process with the model given the same file tree; modules declaring one name several times (exported / private in every order) under every import form; module top-level code calling what only its importer imported or declared; ordered pairs and triples of imports of one module (whole / one name / another / a list, the second also in a loop); trees with symbolic links (program, module, directory reached through a link); a procedure called last before and first after an IMPORT that installs another procedure of that name".into(),
+        rule: "library imports: for every module of the live registry the forms IMPORT MOD, IMPORT \"f\" FROM MOD (several names), IMPORT [f, g] FROM MOD, an unknown name, an unknown module; after each, every procedure name of the whole registry is probed without running it (a call with one argument too many: the label is the argument list iff the name is defined, the name iff it is not) and the importer's variable is displayed; user modules: generated files in the importer's directory or sub-directories with top-level output, a module variable, two exported procedures (one calling the other), a private procedure, optionally a runtime / syntax / lexical error or a nested import relative to the module's own directory; imported whole, by one name, by a list, by a private name, twice; probes for exported / private / module-variable / nested names and the importer's variables; in-process with the model given the same file tree; modules declaring one name several times (exported / private in every order) under every import form; module top-level code calling what only its importer imported or declared; ordered pairs and triples of imports of one module (whole / one name / another / a list, the second also in a loop); trees with symbolic links (program, module, directory reached through a link); a procedure called last before and first after an IMPORT that installs another procedure of that name; a program's procedure named like a module's, called before and after the import; EXPORT at every nesting".into(),
         exhaustive: false,
         notes: vec!["exported procedures that call a procedure the importer did not import are the known finding (see known_findings.txt); the generator imports the whole module whenever an exported procedure calls another one".into()],
     }
@@ -1171,7 +1232,42 @@ fn with_captured_fds<R>(f: impl FnOnce() -> R) -> (R, Vec<u8>, Vec<u8>) {
     (r, o1, o2)
 }
 
+/// names of environment variables the code reads (`env::var("X")`, `env::var_os("X")`): none today
+fn env_names_read() -> Vec<String> {
+    let mut names = vec![];
+    fn walk(d: &std::path::Path, names: &mut Vec<String>) {
+        let Ok(rd) = std::fs::read_dir(d) else { return };
+        for e in rd.flatten() {
+            let p = e.path();
+            if p.is_dir() {
+                walk(&p, names);
+            } else if p.extension().map(|x| x == "rs").unwrap_or(false) {
+                let text = std::fs::read_to_string(&p).unwrap_or_default();
+                for pat in ["env::var(\"", "env::var_os(\"", "env::vars().find(|(k, _)| k == \""] {
+                    let mut rest = text.as_str();
+                    while let Some(i) = rest.find(pat) {
+                        rest = &rest[i + pat.len()..];
+                        if let Some(j) = rest.find('"') {
+                            names.push(rest[..j].to_string());
+                        }
+                    }
+                }
+            }
+        }
+    }
+    walk(std::path::Path::new("/repo/src"), &mut names);
+    names.sort();
+    names.dedup();
+    names
+}
+
 pub fn c18(ctx: &Ctx) -> PropResult {
+    // whatever the environment says: every variable the code reads is set (to "1") for this run, so that output
+    // behind an environment switch is exercised as well
+    let env_names = env_names_read();
+    for n in &env_names {
+        std::env::set_var(n, "1");
+    }
     let reg = extract::registry();
     let mut programs: Vec<(String, String)> = vec![];
     let all_imports: String = ["MATH", "STRING", "IO", "STYLE", "TIME", "MAP", "ROBOT"].iter().map(|m| format!("IMPORT MOD \"{m}\"\n")).collect();
@@ -1234,6 +1330,18 @@ pub fn c18(ctx: &Ctx) -> PropResult {
         ("parse-only", "IMPORT [\"A\", \"B\"] FROM MOD \"M\"\nIF (a) { b } ELSE { c }\n"),
     ] {
         programs.push((tag.to_string(), src.to_string()));
+    }
+    // every operator on every pair of operand kinds, texts that look like numbers included (hints, warnings and
+    // "did you mean" lines are diagnostics: they belong to the error channel of a failing run, not to a run that goes on)
+    {
+        let vals = ["\"42\"", "\" 7 \"", "\"1e3\"", "\"abc\"", "\"\"", "42", "0", "TRUE", "NULL", "[1]"];
+        for op in ["+", "-", "*", "/", "MOD", "==", "!=", "<", "<=", ">", ">=", "AND", "OR"] {
+            for a in vals {
+                for b in vals {
+                    programs.push(("operator-table".into(), format!("DISPLAY(\"A\")\nx <- {a}\ny <- {b}\nr <- x {op} y\nDISPLAY(r)\nDISPLAY(\"B\")\n")));
+                }
+            }
+        }
     }
     // FS procedures failing for every kind of reason (a directory that is not empty, a directory where a file is
     // expected and the other way round, a path below a regular file): the answer is FALSE / NULL, nothing else is written
@@ -1394,7 +1502,7 @@ pub fn c18(ctx: &Ctx) -> PropResult {
     }
     PropResult {
         stats: st,
-        rule: "every library procedure of the live registry (SLEEP excepted; FS inside a scratch working directory, INPUT with an empty standard input) called once with plausible arguments between two DISPLAY probes, every statement form, the three IMPORT forms, lexical / syntax / runtime errors, random programs; run in-process with the output channel captured by the hook sink while the process's file descriptors 1 and 2 are redirected to files: the sink must hold exactly the model's displayed output and the descriptors must stay empty (lexing and parsing alone included); static part: the census of output sites regenerated into Gen/Sites.lean and closed by `decide` (see theorems); programs with 1 .. 300 lexical / syntax errors; INPUT at end of input; every FS procedure failing for every kind of reason".into(),
+        rule: "every library procedure of the live registry (SLEEP excepted; FS inside a scratch working directory, INPUT with an empty standard input) called once with plausible arguments between two DISPLAY probes, every statement form, the three IMPORT forms, lexical / syntax / runtime errors, random programs; run in-process with the output channel captured by the hook sink while the process's file descriptors 1 and 2 are redirected to files: the sink must hold exactly the model's displayed output and the descriptors must stay empty (lexing and parsing alone included); static part: the census of output sites regenerated into Gen/Sites.lean and closed by `decide` (see theorems); programs with 1 .. 300 lexical / syntax errors; INPUT at end of input; every FS procedure failing for every kind of reason; every environment variable the code reads is set; thirteen operators x ten operand kinds squared".into(),
         exhaustive: false,
         notes: vec![format!("{} output sites in /repo/src", output_sites().len()), "the library in its wasm configuration is type-checked by ./check on every run (cargo check --lib --no-default-features --features wasm), not executed".into()],
     }
